@@ -43,10 +43,10 @@ type Node struct {
 	Info any
 }
 
-func S(v string) *Node                { return &Node{Kind: Scalar, Val: v} }
-func Q(v string, st Style) *Node       { return &Node{Kind: Scalar, Val: v, Style: st} }
-func M() *Node                         { return &Node{Kind: Map} }
-func L(items ...*Node) *Node           { return &Node{Kind: Seq, Vals: items} }
+func S(v string) *Node           { return &Node{Kind: Scalar, Val: v} }
+func Q(v string, st Style) *Node { return &Node{Kind: Scalar, Val: v, Style: st} }
+func M() *Node                   { return &Node{Kind: Map} }
+func L(items ...*Node) *Node     { return &Node{Kind: Seq, Vals: items} }
 func (n *Node) Set(k string, v *Node) *Node {
 	n.Keys = append(n.Keys, S(k))
 	n.Vals = append(n.Vals, v)
@@ -106,10 +106,10 @@ func (n *Node) walk(p *Node, idx int, isKey bool, f func(*Node, *Node, int, bool
 }
 
 type Layout struct {
-	Indent     int // spaces per level (>=1), default 2
-	PadColon   int // extra spaces after ':' (>=0)
-	PadDash    int // extra spaces after '-' (>=0)
-	LeadLines  int // comment lines at top
+	Indent    int // spaces per level (>=1), default 2
+	PadColon  int // extra spaces after ':' (>=0)
+	PadDash   int // extra spaces after '-' (>=0)
+	LeadLines int // comment lines at top
 }
 
 type emitter struct {
